@@ -1,6 +1,7 @@
 """C16 — every command acts on the selected account and prints the standard result."""
 import json
 from vlib.core import Case, hx
+from vlib import core
 from vlib import cli, bip39, txgen, tdgen
 from vlib.props import c08
 
@@ -46,7 +47,7 @@ def gen(rng, tier):
     n = 60 if tier == "thorough" else 12
 
     def add(line, tags, meta=None, nt=True):
-        m = {"via": rand_via(rng), "via_file": rng.random() < 0.5}
+        m = {"via": rand_via(rng), "via_file": core.input_route(rng)}
         m.update(meta or {})
         cases.append(Case(line, tags=tags, runner="cli", meta=m, nontrivial=nt))
 
@@ -81,7 +82,7 @@ def gen(rng, tier):
         add("cli.hash_message " + hx(d), ("hash_message",))
     from vlib import magic
     for d, tag in magic.variants(rng, bytes(rng.getrandbits(8) for _ in range(5))):
-        add("cli.hash_data " + hx(d), ("hash_data", tag), {"via_file": rng.random() < 0.5})
+        add("cli.hash_data " + hx(d), ("hash_data", tag), {"via_file": core.input_route(rng)})
     # JSON documents with a byte-order mark / other marks before or after them: RFC 8259 §8.1 lets a parser ignore a BOM but
     # does not require it; the model (serde_json) refuses, and the spec predicate is silent — only model agreement is checked
     for _ in range(n * 2):
@@ -100,7 +101,7 @@ def gen(rng, tier):
                  "domain": {"name": "x"}, "message": {"s": "y" * nbytes, "b": "0x" + "cd" * (nbytes // 2)}}
             add("cli.hash_td %s 0" % hx(json.dumps(d)), ("hash_td", "large-input"), {"via_file": vf})
     # sign commands, with the matching hash command and the C15 pipeline
-    for _ in range(n):
+    for _i in range(n):
         mn, pw, sel = rand_acct(rng)
         msg = bytes(rng.getrandbits(8) for _ in range(rng.choice([0, 1, 12, 100])))
         add("cli.sign_message %s %s %s %s" % (mn, pw, sel, hx(msg)), ("sign_message",), {"address_of": (mn, pw, sel), "digest_cmd": "cli.hash_message " + hx(msg)})
@@ -110,8 +111,10 @@ def gen(rng, tier):
         doc, _, _ = tdgen.rand_doc(rng)
         tj = hx(tdgen.dumps(doc))
         add("cli.sign_td %s %s %s %s" % (mn, pw, sel, tj), ("sign_td",), {"address_of": (mn, pw, sel), "digest_cmd": "cli.hash_td %s 0" % tj})
-        j, exp = txgen.rand_tx(rng)
-        allow = 1 if exp.get("chainId") is None and exp["kind"] == "legacy" and rng.random() < 0.7 else rng.randrange(2)
+        # every kind takes part in the sign | hash pipeline, the pre-EIP-155 legacy form (no chain id, override flag) included
+        forced = [("legacy", "absent"), ("legacy", 1), ("eip2930", None), ("eip1559", None), (None, None)][_i % 5]
+        j, exp = txgen.rand_tx(rng, kind=forced[0], chain=forced[1])
+        allow = 1 if exp.get("chainId") is None and exp["kind"] == "legacy" and (forced[1] == "absent" or rng.random() < 0.7) else rng.randrange(2)
         add("cli.sign_tx %s %s %s %s 1 %d" % (mn, pw, sel, hx(j), allow), ("sign_tx", "sigonly"), {"address_of": (mn, pw, sel), "digest_cmd": "cli.hash_tx %s none" % hx(j), "pipeline": hx(j), "allow": allow})
         add("cli.sign_tx %s %s %s %s 0 %d" % (mn, pw, sel, hx(j), allow), ("sign_tx", "full"), {"pipeline_full": hx(j)})
     from vlib.core import perturb
